@@ -219,11 +219,15 @@ def _combine_projection_spec(projection_fields_spec):
     return combined_spec
 
 
-def _project_by_spec(doc, combined_projection_spec, is_include, container):
+def _refuse_positional_projection(combined_projection_spec, is_include):
     if '$' in combined_projection_spec:
         if is_include:
             raise NotImplementedError('Positional projection is not implemented in mongomock')
         raise OperationFailure('Cannot exclude array elements with the positional operator')
+
+
+def _project_by_spec(doc, combined_projection_spec, is_include, container):
+    _refuse_positional_projection(combined_projection_spec, is_include)
 
     doc_copy = container()
 
@@ -231,8 +235,7 @@ def _project_by_spec(doc, combined_projection_spec, is_include, container):
         spec = combined_projection_spec.get(key, NOTHING)
         if isinstance(spec, dict):
             if isinstance(val, (list, tuple)):
-                doc_copy[key] = [_project_by_spec(sub_doc, spec, is_include, container)
-                                 for sub_doc in val]
+                doc_copy[key] = _project_array_by_spec(val, spec, is_include, container)
             elif isinstance(val, dict):
                 doc_copy[key] = _project_by_spec(val, spec, is_include, container)
             elif not is_include:
@@ -242,6 +245,27 @@ def _project_by_spec(doc, combined_projection_spec, is_include, container):
             doc_copy[key] = _copy_field(val, container)
 
     return doc_copy
+
+
+def _project_array_by_spec(values, combined_projection_spec, is_include, container):
+    """Project every item of an array: documents by the spec, nested arrays item by item.
+
+    Other items have no fields: an inclusion has nothing to show of them, an exclusion nothing
+    to remove from them.
+    """
+    _refuse_positional_projection(combined_projection_spec, is_include)
+
+    projected = []
+    for item in values:
+        if isinstance(item, dict):
+            projected.append(
+                _project_by_spec(item, combined_projection_spec, is_include, container))
+        elif isinstance(item, (list, tuple)):
+            projected.append(
+                _project_array_by_spec(item, combined_projection_spec, is_include, container))
+        elif not is_include:
+            projected.append(_copy_field(item, container))
+    return projected
 
 
 def _copy_field(obj, container):
